@@ -164,9 +164,55 @@ def scalar_inexact_cases(rng, x, dt, tag, n=4):
             exp = dn(dx, sv)
             err = float((dense_of(r) - exp).abs().max())
             scale = max(float(exp.abs().max()), abs(sv) if not isinstance(sv, complex) else abs(sv), 1e-300)
-            if err > tol * scale:
+            if not (err <= tol * scale):      # NaN-safe
                 return "x %s %r (%s): dense value off by %.3g relative (scalar rounded to a narrower precision?)" % (opname, sv, kname, err / scale)
             return None
         cases.append(Case(None, impl, oracle, "scalar-inexact/%s/%s/%s" % (opname, kname, tag), True,
                           desc="x %s %r (%s) kind=%s N=%s dtype=%s" % (opname, sv, kname, "ttm" if x.is_ttm else "tt", list(x.N), dt)))
+    return cases
+
+
+DT_NAMES = {"f32": tn.float32, "f64": tn.float64, "c64": tn.complex64, "c128": tn.complex128}
+
+
+def dtype_cases(rng, ops, label, nops=(2,)):
+    """all ordered dtype tuples for the given operations: the result dtype (one dtype for all cores) is compared with the Lean model
+    `DType.promoteAll` (driver op `promote`), the dense value with the promoted dense expression (exact: small integer entries).
+    ops: list of (name, tt_fn(list of TT) -> TT, dense_fn(list of dense) -> dense, N_of(list of N) )"""
+    import itertools
+    from common import Case
+    from gen import rand_tt, rand_ranks, dense_of, exact_equal
+    cases = []
+    names = list(DT_NAMES)
+    for n in nops:
+        for combo in itertools.product(names, repeat=n):
+            if n == 3 and rng.random() < 0.75:
+                continue
+            for opname, tt_fn, dn_fn, mkN in ops:
+                d = rng.choice([1, 2, 3])
+                Ns = mkN(rng, d, n)
+                xs = [rand_tt(rng, Ns[i], rand_ranks(rng, d, 2), DT_NAMES[combo[i]]) for i in range(n)]
+                box = {}
+
+                def impl(xs=xs, tt_fn=tt_fn, box=box):
+                    r = tt_fn([torchtt.TT([c.clone() for c in x.cores]) for x in xs])
+                    box["r"] = r
+                    dts = {c.dtype for c in r.cores}
+                    inv = {v: k for k, v in DT_NAMES.items()}
+                    return "dt " + (inv.get(next(iter(dts)), "other") if len(dts) == 1 else "mixed")
+
+                def oracle(xs=xs, dn_fn=dn_fn, box=box, combo=combo):
+                    if "r" not in box:
+                        return "the operation raised for operands of dtypes %s" % (combo,)
+                    wide = DT_NAMES[combo[0]]
+                    for c in combo[1:]:
+                        wide = tn.promote_types(wide, DT_NAMES[c])
+                    exp = dn_fn([dense_of(x).to(wide) for x in xs])
+                    got = dense_of(box["r"])
+                    if got.dtype != wide:
+                        return "dense value has dtype %s, the dense expression gives %s" % (got.dtype, wide)
+                    e = exact_equal(got, exp)
+                    return ("dense value differs for dtypes %s: %s" % (combo, e)) if e else None
+                cases.append(Case(J("promote", n, *combo), impl, oracle, "%s/dtypes-%s/%s" % (label, opname, "-".join(combo)), True,
+                                  desc="%s on operands of dtypes %s" % (opname, combo), gauge_ok=False))
     return cases
